@@ -6,6 +6,7 @@ import Driver.OpsAlloc
 import Driver.OpsFn
 import Driver.OpsFnGen
 import Driver.OpsFnGen2
+import Driver.OpsFnGen3
 import Driver.OpsC03
 import Driver.OpsSym
 import Driver.OpsBot
@@ -31,6 +32,7 @@ def handlers : List Handler := [
   handleFn,
   handleFnGen,
   handleFnGen2,
+  handleFnGen3,
   handleC03,
   handleSym,
   handleEval,
